@@ -28,7 +28,8 @@ EXPLANATION = (
   "replacer onto the original text, and returns its input unchanged when it does not parse; (R5) "
   "that the user-attribute table map is complete before it is first used; (R6) that each "
   "record's new text is the direct result of its own process_renames call (no memo shared "
-  "across records). Roles are found by data flow, not by name: a local stands for the value "
+  "across records); (R7) that every process_renames call gets a collector built for that one "
+  "formula (a collector keeps the entities of everything it visited). Roles are found by data flow, not by name: a local stands for the value "
   "it holds where it is read, guards are read from the CFG (either polarity, early "
   "continue/return, flags), arguments are bound by parameter name, private helpers called "
   "from the analysed functions are followed. Not decided: that the "
@@ -62,6 +63,7 @@ def check(run, repo, tier):
   r4_process_renames(run, w)
   r5_two_passes(run, w, rewriters)
   r6_per_record(run, w, rewriters)
+  r7_fresh_collector(run, w, rewriters)
 
 
 KEEP = ("_prepare_formula_renames", "_do_doc_action", "_do_extra_doc_action", "_bulk_action_iter",
@@ -136,6 +138,56 @@ def r6_per_record(run, w, rewriters):
                                 "that record's table" % fn.qualname)
       run.ob(R6, fn.qualname, short(st, 90), "the new text of a record comes from its own "
              "process_renames call", ok, witness=wit, fi=fn.fi, node=st)
+
+
+def r7_fresh_collector(run, w, rewriters):
+  """A collector accumulates the entities of every formula it visits (its list is never reset):
+  each process_renames call needs a collector of its own, built for that formula."""
+  R7 = run.rule("C17-R7", "every process_renames call gets a collector that is fresh for that "
+                "formula (no collector object reaches two calls)", floor=4)
+  for fn, sites in rewriters:
+    v = _views(fn)
+    cfg = fn.cfg
+    origin = {}      # call site node id -> node where its collector is constructed, or "inline"
+    for (n, c) in sites:
+      pb = H.bind_args(c, ("formula", "collector", "renamer")) or {}
+      a = pb.get("collector")
+      if a is None:
+        raise AnalysisError("%s: process_renames without a collector: %s" % (fn.qualname, short(c)))
+      if isinstance(a, ast.Call) and not a.args and not a.keywords:
+        origin[n.id] = ("inline", a)
+        continue
+      r = v.alias_root(a)
+      d = None
+      if isinstance(r, ast.Name):
+        defs = v.reaching(r.id, v.point_of(a))
+        if len(defs) == 1:
+          d = next(iter(defs))
+          val = v._plain_value(r.id, d) if d != v.ENTRY else None
+          if not (isinstance(val, ast.Call) and not val.args and not val.keywords and
+                  w.repo.resolve_class_name(fn.fi.module, dotted(val.func)) is not None):
+            d = None
+      if d is None:
+        raise AnalysisError("%s: cannot tell where the collector %s is built"
+                            % (fn.qualname, short(a)))
+      origin[n.id] = ("local", d)
+    for (n, c) in sites:
+      kind, d = origin[n.id]
+      ok, wit = True, None
+      if kind == "local":
+        shared = [m for (m, c2) in sites if m.id != n.id and origin[m.id] == ("local", d)]
+        again = n.id in cfg.reach_after({n.id}, removed={d})
+        if shared:
+          ok = False
+          wit = "the collector built at line %d also serves the call at line %d" % (
+            cfg.nodes[d].lineno, shared[0].lineno)
+        elif again:
+          ok = False
+          wit = "the collector built at line %d serves this call again in a later iteration" \
+              % cfg.nodes[d].lineno
+      run.ob(R7, fn.qualname, short(c, 80), "the entities collected for this formula are the "
+             "only ones patched into it (a reused collector still holds the previous formula's "
+             "entities and their offsets)", ok, witness=wit, fi=fn.fi, node=c)
 
 
 def _is_pr(nm):
@@ -909,6 +961,12 @@ P = "sandbox/grist/predicate_formula.py"
 U = "sandbox/grist/useractions.py"
 
 VARIANTS = [
+  ("seeded-one-collector-for-both-trigger-formulas", T,
+   "    # Config mode: columnFilters use colRefs (stable across renames),\n    # so only customExpression needs AST-based renaming.\n    config = condition_data.get('config')\n    if config and isinstance(config, dict):\n      custom_expr = config.get('customExpression', '')\n      if custom_expr:\n        new_custom_expr = predicate_formula.process_renames(\n          custom_expr, _TriggerEntityCollector(), renamer)\n        if new_custom_expr != custom_expr:\n          config['customExpression'] = new_custom_expr\n          config['customExpressionParsed'] = parse_predicate_formula(new_custom_expr)\n          changed = True\n\n    # Text mode: rename in the text formula.\n    if 'text' in condition_data:\n      condition_formula = condition_data['text']\n      new_condition_formula = predicate_formula.process_renames(\n        condition_formula, _TriggerEntityCollector(), renamer)\n",
+   "    collector = _TriggerEntityCollector()\n\n    # Config mode: columnFilters use colRefs (stable across renames),\n    # so only customExpression needs AST-based renaming.\n    config = condition_data.get('config')\n    if config and isinstance(config, dict):\n      custom_expr = config.get('customExpression', '')\n      if custom_expr:\n        new_custom_expr = predicate_formula.process_renames(custom_expr, collector, renamer)\n        if new_custom_expr != custom_expr:\n          config['customExpression'] = new_custom_expr\n          config['customExpressionParsed'] = parse_predicate_formula(new_custom_expr)\n          changed = True\n\n    # Text mode: rename in the text formula.\n    if 'text' in condition_data:\n      condition_formula = condition_data['text']\n      new_condition_formula = predicate_formula.process_renames(\n        condition_formula, collector, renamer)\n", "C17-R7"),
+  ("acl-collector-built-once-for-all-rules", A,
+   "  acl_resources_table = useractions.get_docmodel().aclResources.table\n  # Go through again checking if anything in ACL formulas is affected by the rename.\n  for rule_rec in useractions.get_docmodel().aclRules.all:\n\n    if not rule_rec.aclFormula:\n      continue\n    acl_formula = rule_rec.aclFormula\n\n    def renamer(subject):\n      if subject.type == 'recCol':\n        table_id = acl_resources_table.get_record(int(rule_rec.resource)).tableId\n      elif subject.type == 'userAttrCol':\n        table_id = user_attr_tables.get(subject.extra)\n      else:\n        return None\n      col_id = subject.name\n      return col_renames_dict.get((table_id, col_id))\n\n    new_acl_formula = predicate_formula.process_renames(acl_formula, _ACLEntityCollector(), renamer)\n",
+   "  acl_collector = _ACLEntityCollector()\n  acl_resources_table = useractions.get_docmodel().aclResources.table\n  # Go through again checking if anything in ACL formulas is affected by the rename.\n  for rule_rec in useractions.get_docmodel().aclRules.all:\n\n    if not rule_rec.aclFormula:\n      continue\n    acl_formula = rule_rec.aclFormula\n\n    def renamer(subject):\n      if subject.type == 'recCol':\n        table_id = acl_resources_table.get_record(int(rule_rec.resource)).tableId\n      elif subject.type == 'userAttrCol':\n        table_id = user_attr_tables.get(subject.extra)\n      else:\n        return None\n      col_id = subject.name\n      return col_renames_dict.get((table_id, col_id))\n\n    new_acl_formula = predicate_formula.process_renames(acl_formula, acl_collector, renamer)\n", "C17-R7"),
   ("acl-rename-memo-by-text", "sandbox/grist/acl.py",
    "    new_acl_formula = predicate_formula.process_renames(acl_formula, _ACLEntityCollector(), renamer)\n",
    "    if acl_formula not in _memo:\n      _memo[acl_formula] = predicate_formula.process_renames(acl_formula, _ACLEntityCollector(), renamer)\n    new_acl_formula = _memo[acl_formula]\n", "C17-R6"),
